@@ -128,6 +128,24 @@ Theorem C08_split_nodes_structure : forall (s : store) (n : id) (o i : legspec) 
 Proof. exact split_nodes_structure. Qed.
 Print Assumptions C08_split_nodes_structure.
 
+(* ... and it rewires exactly the neighbours the specifications name (pointer to the split node ->
+   pointer to the new node on that side); no other node record changes *)
+Theorem C08_split_nodes_neighbours : forall (s : store) (n : id) (o i : legspec) (oid iid : id) (kind : nat) (m : mode) (rb : nat) (s' : store),
+  split_nodes s n o i oid iid kind m rb = Some s' ->
+  n <> oid -> n <> iid ->
+  NoDup (find_all_neighbour_ids o ++ find_all_neighbour_ids i) ->
+  ~ In n (find_all_neighbour_ids o ++ find_all_neighbour_ids i) ->
+  ~ In oid (find_all_neighbour_ids o ++ find_all_neighbour_ids i) ->
+  ~ In iid (find_all_neighbour_ids o ++ find_all_neighbour_ids i) ->
+  (forall x xn, In x (find_all_neighbour_ids o) -> aget x (nodes s) = Some xn ->
+     exists xn', replace_neighbour xn n oid = Some xn' /\ aget x (nodes s') = Some xn') /\
+  (forall x xn, In x (find_all_neighbour_ids i) -> aget x (nodes s) = Some xn ->
+     exists xn', replace_neighbour xn n iid = Some xn' /\ aget x (nodes s') = Some xn') /\
+  (forall k, k <> n -> k <> oid -> k <> iid -> ~ In k (find_all_neighbour_ids o ++ find_all_neighbour_ids i) ->
+     aget k (nodes s') = aget k (nodes s)).
+Proof. exact split_nodes_neighbours. Qed.
+Print Assumptions C08_split_nodes_neighbours.
+
 (* TEBD._apply_one_trotter_step_two_site, either orientation, any gate, any SVD outcome: both nodes
    come back under their identifiers with their parent and their children (as sets; the partner
    is moved to the front of the upper node's child list), the root stays where it was *)
@@ -141,6 +159,42 @@ Theorem C08_two_site_gate_restores : forall (contr : id) (s : store) (a b : id) 
     root s3 = (if is_root na then Some a else if is_root nb then Some b else root s2).
 Proof. exact two_site_gate_restores. Qed.
 Print Assumptions C08_two_site_gate_restores.
+
+(* the gate is one fresh atom: inputs on the node's old open wires in order, outputs in their place *)
+Theorem C08_absorb_open_spec : forall (s : store) (n : id) (gshape : list nat) (s' : store),
+  absorb_open s n gshape = Some s' ->
+  exists s1 nd t,
+    access s n = Some (s1, nd, t) /\
+    length gshape = 2 * nopen nd /\ firstn (nopen nd) gshape = skipn (nopen nd) gshape /\
+    map (wdim s) (skipn (nvirt nd) (axes t)) = skipn (nopen nd) gshape /\
+    let oldw := skipn (nvirt nd) (axes t) in
+    let neww := seq (next_wire s1) (nopen nd) in
+    nodes s' = nodes s1 /\ root s' = root s1 /\
+    aget n (tensors s') = Some {| axes := firstn (nvirt nd) (axes t) ++ neww; atoms := atoms t ++ [next_atom s1]; bnd := oldw ++ bnd t |} /\
+    (forall k, k <> n -> aget k (tensors s') = aget k (tensors s1)) /\
+    atab s' = atab s1 ++ [(next_atom s1, neww ++ oldw)].
+Proof. exact absorb_open_spec. Qed.
+Print Assumptions C08_absorb_open_spec.
+
+(* one step is the ordered composition of its gates; several steps are the gate list repeated *)
+Theorem C08_tebd_step_ordered : forall (contr : id) (gs1 gs2 : list tgate) (s : store),
+  tebd_step contr s (gs1 ++ gs2) = match tebd_step contr s gs1 with Some s' => tebd_step contr s' gs2 | None => None end.
+Proof. exact tebd_step_app. Qed.
+Print Assumptions C08_tebd_step_ordered.
+
+Theorem C08_tebd_steps_repeat : forall (contr : id) (gs : list tgate) (n : nat) (s : store),
+  tebd_step contr s (repeat_list n gs) = tebd_steps contr n s gs.
+Proof. exact tebd_steps_repeat. Qed.
+Print Assumptions C08_tebd_steps_repeat.
+
+(* truncation (model of truncate_singular_values from C10): with max_bond_dim = m >= 1 the new bond
+   has between 1 and m values, and never more than the spectrum has *)
+Theorem C08_bond_bounded : forall (p : Trunc.Select.params) (s : list QArith_base.Q) (m : nat),
+  s <> [] -> Trunc.SelectProofs.descending s -> Trunc.SelectProofs.bond_ok (Trunc.Select.max_bond p) ->
+  Trunc.Select.max_bond p = Trunc.Select.BFin m ->
+  1 <= length (fst (Trunc.Select.select p s)) <= m /\ length (fst (Trunc.Select.select p s)) <= length s.
+Proof. exact bond_bounded. Qed.
+Print Assumptions C08_bond_bounded.
 
 (* ---- non-vacuity ------------------------------------------------------------------------------------- *)
 (* a splitting with keys given child-first, a factor, SWAPs before and after, via from_lists *)
